@@ -109,7 +109,6 @@ def endMonitor (old new : State) (signed : List Nat) (capReached : Bool) (payout
           let tag := if !isPresent && w.accum > base then "accrued-while-not-present" else "wrong-accrual"
           out := s!"VIOL C19 {tag} validator={v.pubkey} accum:{v.accum}->{w.accum} expected={base + expect} pot={pot} stake={v.totalBip} totalPower={totalPower}" :: out
   return out
-
 end Minter
 
 namespace Minter
@@ -179,5 +178,52 @@ def validatorSetMonitor (s : State) (limit : Nat := 64) : List String := Id.run 
         out := s!"VIOL C17 validator-not-in-top cand-pubkey={v.pubkey} stake={v.totalBip}" :: out
   if s.validators.length > limit then out := s!"VIOL C17 too-many-validators {s.validators.length}" :: out
   return out
+
+/-! ### C14 at the node level: best price first, read off what a delivered transaction did to the order book
+
+  A book entry of the projection is `c0 c1 side wantBuy wantSell owner height` in sorted-pair orientation; `side = true` is an
+  order that gives coin1 and wants `wantBuy` of coin0 for `wantSell` of coin1 (a taker prefers a smaller `wantBuy / wantSell`),
+  `side = false` gives coin0 and wants `wantSell` of coin1 for `wantBuy` of coin0 (smaller `wantSell / wantBuy`). -/
+
+structure BookEntry where
+  key : String        -- `o <id>`
+  pair : String       -- `c0 c1 side`
+  side : Bool
+  wantBuy : Int
+  wantSell : Int
+  deriving Repr
+
+def BookEntry.parse (key v : String) : Option BookEntry :=
+  match words v with
+  | [c0, c1, side, wb, ws, _, _] => some { key, pair := s!"{c0} {c1} {side}", side := side == "true", wantBuy := intD wb, wantSell := intD ws }
+  | _ => none
+
+/-- `u` asks a strictly better price than `f` on the same side, by more than the 2⁻⁴⁰ the node's 53-bit sort key can blur. -/
+def BookEntry.betterThan (u f : BookEntry) : Bool :=
+  let un := if u.side then u.wantBuy else u.wantSell
+  let ud := if u.side then u.wantSell else u.wantBuy
+  let fn := if f.side then f.wantBuy else f.wantSell
+  let fd := if f.side then f.wantSell else f.wantBuy
+  u.pair == f.pair && decide (0 < ud) && decide (0 < fd) && decide (un * fd * (2 ^ 40 + 1) < fn * ud * 2 ^ 40)
+
+/-- Every order a delivered transaction filled (wholly or partly), against every order of the same side it left untouched:
+    an untouched order with a strictly better price is a priority violation. -/
+def orderPriorityMonitor (filled untouched : List BookEntry) : List String :=
+  filled.flatMap (fun f => untouched.filterMap (fun u =>
+    if u.betterThan f then
+      some s!"VIOL C14 priority: {f.key} ({f.wantBuy}/{f.wantSell}) was filled while {u.key} ({u.wantBuy}/{u.wantSell}) on the same side of pool {f.pair} rests untouched at a better price"
+    else none))
+
+theorem orderPriorityMonitor_silent {filled untouched : List BookEntry} (h : orderPriorityMonitor filled untouched = []) :
+    ∀ f ∈ filled, ∀ u ∈ untouched, u.betterThan f = false := by
+  intro f hf u hu
+  unfold orderPriorityMonitor at h
+  rw [List.flatMap_eq_nil_iff] at h
+  have h1 := h f hf
+  rw [List.filterMap_eq_nil_iff] at h1
+  have h2 := h1 u hu
+  by_cases hb : u.betterThan f = true
+  · simp [hb] at h2
+  · simpa using hb
 
 end Minter
